@@ -14,6 +14,11 @@ na_file = os.path.join(VERIF, "vlib", "not_applicable.json")
 if os.path.exists(na_file):
     NA = json.load(open(na_file))
 
+wipf = os.path.join(VERIF, "vlib", "wip_props.txt")
+WIP = set(l.strip() for l in open(wipf) if l.strip() and not l.startswith("#")) if os.path.exists(wipf) else set()
+for w in WIP:
+    PROPS.pop(w, None)
+
 checks = []
 for pid in ids:
     if pid not in PROPS:
